@@ -86,7 +86,11 @@ Shapes ==
   \cup {[cls |-> "mov", w |-> 16, dst |-> R16("dx"), src |-> R16(r)] : r \in Reg16s}
   \cup {[cls |-> "xchg", w |-> 16, a |-> R16(r), b |-> R16("si")] : r \in Reg16s}
   \cup {[cls |-> "print", what |-> wt] : wt \in {[k |-> "flags"], [k |-> "reg"], [k |-> "range", a |-> 3, b |-> 20],
-                                                 [k |-> "span", a |-> 16, n |-> 5], [k |-> "dsspan", n |-> 17]}}
+                                                 [k |-> "span", a |-> 16, n |-> 5], [k |-> "dsspan", n |-> 17],
+                                                 \* constants that need more than 16 bits (seeded change C11-q: binary constants lost bits 16..19)
+                                                 [k |-> "range", a |-> 65536, b |-> 65551], [k |-> "range", a |-> 1048575, b |-> 1048575],
+                                                 [k |-> "span", a |-> 983040, n |-> 65541], [k |-> "dsspan", n |-> 1048575],
+                                                 [k |-> "span", a |-> 699050, n |-> 349525]}}
 
 Env == [data |-> {"vdat"}, offsets |-> ("vdat" :> 4), code |-> {"vtgt"}, procs |-> {"vprc"}]
 
